@@ -357,11 +357,13 @@ def shAddAll (c : Cfg) : ShSt → List Blk → Nat → List Nat → ShSt × Bool
 
 def cdagPin (c : Cfg) (cdag root : Nat) : Pin :=
   let o := workOpts c
-  { cid := cdag, type := .clusterDagT, opts := { o with rmin := -1, rmax := -1, name := cdagName o.name },
+  { cid := cdag, type := .clusterDagT,
+    opts := { o with rmin := -1, rmax := -1, mode := .direct, name := cdagName o.name },
     depth := 0, allocs := [], ref := some root }
 
 def metaPin (c : Cfg) (cdag root : Nat) : Pin :=
-  { cid := root, type := .metaT, opts := workOpts c, depth := 0, allocs := [], ref := some cdag }
+  { cid := root, type := .metaT, opts := workOpts c, depth := modeToDepth (workOpts c).mode, allocs := [],
+    ref := some cdag }
 
 def cdagNodes (s : ShSt) : List Node := makeDAG s.env.named (s.shards.map (·.pin.cid))
 
